@@ -163,7 +163,7 @@ var c18Elem = regexp.MustCompile(`(?s)<([A-Za-z_0-9]+)( [^>]*)?>([^<]*)</([A-Za-
 func TestVerifC18KeyMalformed(t *testing.T) {
 	r := vkit.Start(t, "C18", "key-xml-malformed", 100*time.Second, 400*time.Second)
 	defer r.Finish()
-	r.Rule = "public and private key documents (6 bases, with revocation parts): every leaf element deleted, emptied, negated ('-' prefix), garbled (non-decimal), Bases num attribute +-1, a base element added/removed, modulus of unsupported length (half, 1000-fold, and every length 1..9 bits short of / 1, 7, 8, 9 bits beyond 1024, 2048, 4096), inconsistent p/p' and non-safe primes (non-demo); through every reading entry point; non-trivial = distinct (document, mutation, reader); oracle: an error is returned - never a key, never a panic (elements that are optional by design - ECDSA, G, H, Features, Counter, ExpiryDate - may be absent)"
+	r.Rule = "public and private key documents (6 bases, with revocation parts): every leaf element deleted, emptied, negated ('-' prefix), garbled (non-decimal), Bases num attribute +-1, a base element added/removed, modulus of unsupported length (half, 1000-fold, and every length 1..9 bits short of / 1, 7, 8, 9 bits beyond 1024, 2048, 4096), inconsistent p/p' and non-safe primes (non-demo; also prime and half replaced together by consistent non-safe pairs, for p and for q); through every reading entry point; non-trivial = distinct (document, mutation, reader); oracle: an error is returned - never a key, never a panic (elements that are optional by design - ECDSA, G, H, Features, Counter, ExpiryDate - may be absent)"
 	sk, pk := c18Keys(t, 6, true)
 	var sb, sp strings.Builder
 	pk.WriteTo(&sb)
@@ -225,7 +225,20 @@ func TestVerifC18KeyMalformed(t *testing.T) {
 				mut{"inconsistent-primes", "pPrime+1", regexp.MustCompile(`<pPrime>(\d+)(\d)</pPrime>`).ReplaceAllString(d.xml, "<pPrime>${1}0</pPrime>")},
 				mut{"inconsistent-primes", "p and pPrime swapped", c18Swap(d.xml, "p", "pPrime")},
 				mut{"non-safe-primes", "p=q'*2+1 replaced by a composite of the same shape", regexp.MustCompile(`<p>(\d+)</p>`).ReplaceAllString(d.xml, "<p>15</p>")},
+
 				mut{"not-xml", "truncated document", d.xml[:len(d.xml)/2]})
+			// a prime and its half replaced TOGETHER, so that they stay consistent with each other: the prime is
+			// prime, (prime-1)/2 is not (13/6, 29/14, 1000003/500001), or the half is prime and the "prime" is
+			// not (15/7), for p and for q
+			setPair := func(xml, prime, half string, pv, hv int64) string {
+				xml = regexp.MustCompile(`<`+prime+`>(\d+)</`+prime+`>`).ReplaceAllString(xml, fmt.Sprintf("<%s>%d</%s>", prime, pv, prime))
+				return regexp.MustCompile(`<`+half+`>(\d+)</`+half+`>`).ReplaceAllString(xml, fmt.Sprintf("<%s>%d</%s>", half, hv, half))
+			}
+			for _, pr := range [][2]int64{{13, 6}, {29, 14}, {1000003, 500001}, {15, 7}} {
+				muts = append(muts,
+					mut{"non-safe-primes", fmt.Sprintf("q=%d with qPrime=%d (consistent with each other, not a safe prime)", pr[0], pr[1]), setPair(d.xml, "q", "qPrime", pr[0], pr[1])},
+					mut{"non-safe-primes", fmt.Sprintf("p=%d with pPrime=%d (consistent with each other, not a safe prime)", pr[0], pr[1]), setPair(d.xml, "p", "pPrime", pr[0], pr[1])})
+			}
 		}
 		for _, m := range muts {
 			if _, mine := r.Next(); !mine {
